@@ -53,7 +53,7 @@ func runC16Dir(em *vEmitter, r *vRng, idx int) {
 			case 1:
 				write(u+".user", []byte("argon2id:1:999:AAAA:AAAA\n")) // unsupported parameter set
 			case 2:
-				write(u+".user", nil) // empty reservation
+				write(u+[]string{".user", ".admin"}[r.intn(2)], nil) // empty reservation
 			default:
 				plantOne(u, false)
 			}
@@ -154,6 +154,20 @@ func runC16Dir(em *vEmitter, r *vRng, idx int) {
 	h.begin()
 	ops := []vOp{{kind: "check"}, {kind: "list"}, {kind: "listfull"},
 		{kind: "init", u: "newadmin", pw: []byte("initpw")}, {kind: "check"}, {kind: "exists", u: names[0]}}
+	// operations on whatever is there (empty reservations, unsupported records, ...), each followed by a
+	// check: from a valid directory they must keep it valid and never yield two files for one user
+	for k := 0; k < 3; k++ {
+		u := names[r.intn(len(names))]
+		switch r.intn(4) {
+		case 0, 1:
+			ops = append(ops, vOp{kind: "add", u: u, pw: []byte("addpw"), admin: r.intn(2) == 0})
+		case 2:
+			ops = append(ops, vOp{kind: "update", u: u, pw: []byte("updpw")})
+		case 3:
+			ops = append(ops, vOp{kind: "setadmin", u: u, admin: r.intn(2) == 0})
+		}
+		ops = append(ops, vOp{kind: "check"})
+	}
 	for _, o := range ops {
 		h.exec(o)
 	}
